@@ -8,6 +8,10 @@ obligations `Extracted.x = <what the model assumes> := by decide`, so a change t
 these tables breaks a proof obligation on the next run. Anything that cannot be found is
 emitted as a sentinel (`none` / `[]` / `false`) so the obligation fails rather than the
 extractor crashing.
+
+The same run also regenerates `lean/RactorModel/Generated/<Area>.lean` (+ `report.json`) through
+`extract/rs2lean.py`: Lean DEFINITIONS translated from selected pure Rust functions, proved equal
+to the hand-written model functions in `Props/*.lean` (see notes/XLATE.md).
 """
 import argparse
 import re
